@@ -20,6 +20,13 @@ resource becomes available; a waiter registers again before every wait).  `fixed
 the code as found (one waiter woken, only on the unavailable→available edge; registration only
 before the first wait); it is kept for the counterexample theorems.
 
+Round 4: `MainOp.call` = a primitive / scheduler member called from the MAIN context (`mainCall`): the paths
+that reach `getToken/wait/yield/join` abort (TBOX_ASSERT of the debug build), the others (send, release, post,
+Condition::add/post, `>>` on a non-empty channel, `acquire` on a positive count) run as inside a routine and
+are logged under the pseudo routine `mainR`; `Op.throw` (exception leaves the routine body: std::terminate) and
+`Op.rcleanup` (`cleanup()` inside a routine) abort too.  `Semaphore::count_` is a natural number here (initial
+count k >= 0); its `int` width is modelled in SemWidth.lean.
+
 The event loop's run-next queue is modelled by the number `pend` of queued
 `Scheduler::schedule` tasks: every `makeRoutineReady` posts one, a loop pass runs the ones
 queued when the pass started.
@@ -34,6 +41,8 @@ inductive Op where
   | post (b : Nat) | bwait (b : Nat)
   | cadd (k v : Nat) | cwait (k : Nat) | cpost (k v : Nat)
   | join (t : Nat) | create (d : Nat) (now : Bool) | cancel (t : Nat) | exit
+  | throw                           -- the routine body throws: nothing catches it below `Routine::mainEntry`
+  | rcleanup                        -- `Scheduler::cleanup()` called from inside a routine
 deriving DecidableEq, Repr
 
 inductive Res where
@@ -111,6 +120,8 @@ structure State where
   cd     : Nat → Cond := fun k => { all := k % 2 == 0 }
   log    : List Ev := []
   stuck  : Bool := false            -- cleanup() ran out of fuel (never observed; see Props)
+  aborted : Bool := false           -- the process called `abort()` (failed TBOX_ASSERT / std::terminate)
+  abortAt : Nat := 0                -- ghost: length of `log` at the first abort
   tags   : List String := []        -- branch tags for the distribution statistics (never read by the model)
 
 def State.R (s : State) (r : Nat) : Routine := s.rts r
@@ -174,6 +185,13 @@ def create (s : State) (d : Nat) (now : Bool) : State :=
 def freeRoutine (s : State) (r : Nat) : State :=
   { s.setR r { s.R r with freed := true, state := .dead } with
     cells := s.cells.set (s.R r).pos none, free := (s.R r).pos :: s.free }
+
+/-- `std::abort()`: a failed `TBOX_ASSERT` (debug build, the one the harness compiles) or `std::terminate`
+for an exception that leaves a routine body.  The process is gone: `step` does nothing any more; what the
+model computes for the rest of the pass in which the abort happens is never observed (the driver cuts the
+trace at `abortAt`). -/
+def abort (s : State) : State :=
+  if s.aborted then s else { s with aborted := true, abortAt := s.log.length }
 
 inductive Ctl where
   | next | block | quit
@@ -309,6 +327,10 @@ def execOp (s : State) (me : Nat) (op : Op) (rest : List Op) : State × Ctl :=
       let (s1, b) := cancelR s t
       finish s1 me op rest (if b then .ok else .fail)
   | .exit => (s, .quit)
+  -- an exception leaving `entry(scheduler)` unwinds to the bottom of the makecontext stack: std::terminate
+  | .throw => (abort s, .quit)
+  -- `TBOX_ASSERT(isInMainRoutine())` at the top of `Scheduler::cleanup`
+  | .rcleanup => (abort s, .quit)
 
 /-- the entry function returned: `state = kDead` -/
 def die (s : State) (me : Nat) : State :=
@@ -386,7 +408,59 @@ def cleanup (s : State) : State :=
   let s2 := sweepLoop 2 s1
   { s2 with cells := [], free := [], inCleanup := false }
 
+/-- pseudo routine index under which calls made from the MAIN context are logged -/
+def mainR : Nat := 1000000000
+
+def logMain (s : State) (op : Op) (res : Res) : State :=
+  { s with log := s.log ++ [{ r := mainR, op := op, res := res, canc := false }] }
+
+/-- a primitive / scheduler member called from the main context (outside every routine).
+`Scheduler::wait/yield/join/getToken/isCanceled/getName` start with `TBOX_ASSERT(!isInMainRoutine())`:
+every path of a primitive that reaches one of them aborts; the paths that do not (send, release, post,
+Condition::add/post, `>>` on a non-empty channel, `acquire` on a positive count, `Condition::wait` refused)
+run exactly as inside a routine. -/
+def mainCall (s : State) : Op → State
+  | .send c v =>
+      let ch := s.ch c
+      let (s1, toks) := wake s ch.tokens ch.queue.isEmpty
+      logMain (s1.setCh c { queue := ch.queue ++ [v], tokens := toks }) (.send c v) .ok
+  | .recv c =>
+      let ch := s.ch c
+      match ch.queue with
+      | v :: q => logMain (s.setCh c { ch with queue := q }) (.recv c) (.val v)
+      | [] => abort s                       -- `token_.push(sch_.getToken())`
+  | .acquire k =>
+      let sm := s.sm k
+      if sm.count = 0 then abort s          -- `token_.push(sch_.getToken())`
+      else logMain (s.setSm k { sm with count := sm.count - 1 }) (.acquire k) .ok
+  | .release k =>
+      let sm := s.sm k
+      let (s1, toks) := wake s sm.tokens (sm.count = 0)
+      logMain (s1.setSm k { sm with count := sm.count + 1, tokens := toks }) (.release k) .ok
+  | .post b =>
+      let bc := s.bc b
+      logMain ((wakeAll s bc.tokens).setBc b { tokens := [], epoch := bc.epoch + 1 }) (.post b) .ok
+  | .cadd k v =>
+      let cd := s.cd k
+      logMain (s.setCd k { cd with conds := condInsert cd.conds v }) (.cadd k v) .ok
+  | .cwait k =>
+      let cd := s.cd k
+      if cd.tok.isSome ∨ cd.conds.isEmpty then logMain s (.cwait k) .fail
+      else abort s                          -- `wait_token_ = sch_.getToken()`
+  | .cpost k v =>
+      let cd := s.cd k
+      if v ∈ cd.conds then
+        let conds := if cd.all then cd.conds.erase v else []
+        if conds.isEmpty then
+          logMain ((resumeOpt s cd.tok).setCd k { cd with conds := [], tok := none }) (.cpost k v) .ok
+        else logMain (s.setCd k { cd with conds := conds }) (.cpost k v) .ok
+      else logMain s (.cpost k v) .ok
+  -- yield / wait / join: TBOX_ASSERT(!isInMainRoutine()); lock / unlock / Broadcast::wait: getToken() first;
+  -- create / cancel from the main context are the main operations `new` / `cancel`
+  | _ => abort s
+
 inductive MainOp where
+  | call (op : Op)
   | define (xfail : Bool) (ops : List Op)
   | new (d : Nat) (now : Bool)
   | resume (r : Nat)
@@ -396,6 +470,7 @@ inductive MainOp where
 deriving Repr
 
 def applyMain (s : State) : MainOp → State
+  | .call op => mainCall s op
   | .define xf ops => { s with defs := s.defs ++ [(xf, ops)] }
   | .new d now => create s d now
   | .resume r => (resume s r).1
@@ -404,7 +479,10 @@ def applyMain (s : State) : MainOp → State
   | .pass => s
 
 /-- one op line: the main-context operation, then one pass of the event loop -/
-def step (s : State) (op : MainOp) : State := loopPass (applyMain s op)
+def step (s : State) (op : MainOp) : State :=
+  if s.aborted then s else
+    let s1 := applyMain s op
+    if s1.aborted then s1 else loopPass s1
 
 def run (s : State) : List MainOp → State
   | [] => s
